@@ -1,4 +1,4 @@
-CONSTANTS MaxN = 4 MaxParents = 2 MaxDup = 0 Limits <- LimitsS Sizes <- SizesQ BigSize = 30 FailKinds <- FailAll
+CONSTANTS MaxN = 4 MaxParents = 2 MaxDup = 0 Limits <- LimitsS Sizes <- SizesQ BigSize = 30 MaxExt = 0 FailKinds <- FailAll
 SPECIFICATION Spec
 INVARIANT EmitScen
 CHECK_DEADLOCK FALSE
